@@ -287,6 +287,10 @@ func verdict(accepted, enough bool, router, path, fam string, dv, listed int, de
 	r.Class(router + ":" + cls)
 	r.Case(fmt.Sprintf("%s/%s/%s/distinct=%d/listed=%d/%s", router, path, fam, dv, listed, cls))
 	count(router + "/" + path + "/" + cls)
+	if accepted && dv < listed || !accepted && dv > 0 && listed > dv {
+		r.Sample(map[string]any{"router": router, "path": path, "family": fam, "outcome": cls, "distinct_valid_tracked": dv, "listed": listed,
+			"signers": detail["signer_list"], "invocation": detail["invocation"], "tracked": detail["tracked"], "tracked_set_size": detail["tracked_set_size"]})
+	}
 	if accepted && !enough {
 		key := fmt.Sprintf("%s:%s:accepted-without-enough-distinct-tracked-signers:%s", router, path, fam)
 		violation(key, listed*1000+rankOf(detail), detail)
@@ -446,6 +450,7 @@ type neoRouter struct {
 	direct      func(s *hsenv.Sim, raw []byte) error       // exported verifier on the real state
 	proofMarker string
 	proof       []byte // a well-formed proof of something else: fails cleanly AFTER the signature check
+	noImport    bool   // cross_chain_manager has no handler for this router (neo3legacy): only the verifier is driven
 	chain       uint64
 	m, n        int
 }
@@ -471,6 +476,12 @@ func runNeo(nr neoRouter, d polyenv.Dump, cases []neoCase) {
 		}
 		r.Eval()
 		verdict(err == nil, enough, nr.name, "VerifyCrossChainMsgSig", fam, dg, len(c.list), detail("header_sync."+nr.name+".VerifyCrossChainMsgSig", ""))
+		if c.by == "tracked" && len(c.list) == nr.m && dg == nr.m && sorted(c.list) && err != nil {
+			canonicalRejected("%s canonical message (%d distinct members in script order) rejected: %s: %v", nr.name, nr.m, lab, err)
+		}
+		if nr.noImport {
+			return
+		}
 		s.Load(d)
 		res := s.Exec(on.ImportTx(nr.chain, index, nr.proof, raw), 10, 1000)
 		r.Eval()
@@ -483,9 +494,6 @@ func runNeo(nr neoRouter, d polyenv.Dump, cases []neoCase) {
 			r.HarnessError("%s import: unexpected outcome %s (%s)", nr.name, st, lab)
 		}
 		verdict(st == "sig-accepted", enough, nr.name, "MakeDepositProposal", fam, dg, len(c.list), detail("cross_chain_manager.ImportOuterTransfer", st))
-		if c.by == "tracked" && len(c.list) == nr.m && dg == nr.m && sorted(c.list) && err != nil {
-			canonicalRejected("%s canonical message (%d distinct members in script order) rejected: %s: %v", nr.name, nr.m, lab, err)
-		}
 	})
 }
 
@@ -606,7 +614,7 @@ func neo3Part(legacy bool) {
 		must(on.RegisterStateValidators(w, vals, pubHex, 0), "state validators")
 		d := w.Dump()
 		w.Close()
-		nr := neoRouter{name: name, chain: chain, m: m, n: n, proofMarker: "VerifyFromNeoTx error", proof: []byte{5, 9, 0, 0, 0, 0xaa, 0},
+		nr := neoRouter{name: name, chain: chain, m: m, n: n, proofMarker: "VerifyFromNeoTx error", proof: []byte{5, 9, 0, 0, 0, 0xaa, 0}, noImport: legacy,
 			build: func(c neoCase) ([]byte, uint32) {
 				return wire(inv(c.by, c.list), script[c.by]), 88
 			},
@@ -665,7 +673,7 @@ func main() {
 	fmt.Println("outcomes:", c)
 	r.Finish(map[string]any{
 		"rule":            "accepted ⇒ |distinct tracked members with a valid signature| ≥ required (ONT ceil(N/3) at the greatest key height below the message; NEO/N3: tracked script's m and script hash == tracked)",
-		"routers_covered": []string{"ont (syncCrossChainMsg + importOuterTransfer)", "neo", "neo3", "neo3legacy"},
+		"routers_covered": []string{"ont (syncCrossChainMsg + importOuterTransfer)", "neo (verifier + importOuterTransfer)", "neo3 (verifier + importOuterTransfer)", "neo3legacy (verifier only: cross_chain_manager.GetChainHandler has no case for router 11)"},
 		"ont_N_max":       r.QT(6, 9),
 		"neo_sets":        "1of2,2of3,3of4" + map[bool]string{true: ",3of5", false: ""}[r.Thorough()],
 		"neo3_n_max":      r.QT(4, 5),
